@@ -110,7 +110,7 @@ func monC08(c *drv.Ctx) {
 	// skippers that buffer what the input declares only get inputs whose largest request stays below the cap
 	allocCap := uint64(1 << 20)
 	if c.Thorough() {
-		allocCap = 1 << 24
+		allocCap = 1 << 22
 	}
 	types := ref.KnownTypes
 	allTypes := []byte{0, 1, 2, 3, 4, 5, 6, 7, 8, 9, 10, 11, 12, 13, 14, 15, 16, 17, 0x7f, 0x80, 0xff}
